@@ -14,6 +14,7 @@ control: the new part has no control) — both repaired by fixes/C19-split-neutr
 -/
 import WntrModel.Model.Morph
 import WntrModel.Lemmas.MorphSkel
+import WntrModel.Lemmas.MorphGeom
 import Mathlib.Tactic.Ring
 import Mathlib.Tactic.Linarith
 import Mathlib.Tactic.SplitIfs
@@ -216,11 +217,6 @@ theorem crossing_result (c sub : Rat) (pts : List Pt) (ls : List Rat) (cur : Opt
 
 
 
-/-- SPECIFICATION: the point at arc length `c > 0` from the first point of a polyline whose segments have lengths `ls` -/
-def pointAt : Rat → List Pt → List Rat → Option Pt
-  | c, p :: q :: rest, l :: ls => if c ≤ l then some (lerp p q (c / l)) else pointAt (c - l) (q :: rest) ls
-  | _, _, _ => none
-
 /-- segments that start at or beyond the split length never match -/
 theorem crossing_past (c sub : Rat) (pts : List Pt) (ls : List Rat) (cur : Option Pt)
     (hl : ∀ l ∈ ls, 0 ≤ l) (h : c ≤ sub) : crossing c sub pts ls cur = cur := by
@@ -288,6 +284,46 @@ theorem split_junction_on_polyline (s e : Node) (verts : List Pt) (segLens : Lis
   · have := crossing_eq_pointAt (lsum segLens * f) 0 (s.xy :: (verts ++ [e.xy])) segLens init hl hc
     simpa using this
   · exact crossing_past (lsum segLens * f) 0 (s.xy :: (verts ++ [e.xy])) segLens init hl (not_lt.mp hc)
+
+/-- **a cut at fraction 1 of a pipe with vertices puts the junction on the end node**, for every polyline of positive total
+length (zero-length segments anywhere) -/
+theorem pointAt_total (pts : List Pt) (ls : List Rat) (hf : fits pts ls) (hl : ∀ l ∈ ls, 0 ≤ l) (hpos : 0 < lsum ls) :
+    pointAt (lsum ls) pts ls = pts.getLast? := by
+  have h := pointAt_vertex pts ls ls.length hf hl (Nat.le_refl _) (by rwa [List.take_length])
+  rw [List.take_length] at h
+  rw [h, List.getLast?_eq_getElem?, fits_length pts ls hf]
+  rfl
+
+/-- **junction of a split at a vertex / at the end**: if the split length `f · total` equals the cumulated length of the first `k`
+segments (`k = number of segments` is `f = 1`), the new junction is the `k`-th point of start, vertices…, end -/
+theorem split_junction_on_vertex (s e : Node) (verts : List Pt) (segLens : List Rat) (f : Rat) (init : Option Pt) (k : Nat) (v : Pt)
+    (hv : verts ≠ []) (hf : fits (s.xy :: (verts ++ [e.xy])) segLens) (hl : ∀ l ∈ segLens, 0 ≤ l)
+    (hk : k ≤ segLens.length) (hc : lsum segLens * f = lsum (segLens.take k)) (hpos : 0 < lsum (segLens.take k))
+    (hvk : (s.xy :: (verts ++ [e.xy]))[k]? = some v) :
+    (geometry s e verts segLens f init).1 = some v := by
+  rw [split_junction_on_polyline s e verts segLens f init hv hl, hc, if_pos hpos,
+    pointAt_vertex _ segLens k hf hl hk hpos, hvk]
+  rfl
+
+theorem split_junction_at_one (s e : Node) (verts : List Pt) (segLens : List Rat) (init : Option Pt)
+    (hv : verts ≠ []) (hf : fits (s.xy :: (verts ++ [e.xy])) segLens) (hl : ∀ l ∈ segLens, 0 ≤ l) (hpos : 0 < lsum segLens) :
+    (geometry s e verts segLens 1 init).1 = some e.xy := by
+  apply split_junction_on_vertex s e verts segLens 1 init segLens.length e.xy hv hf hl (Nat.le_refl _)
+  · rw [List.take_length, mul_one]
+  · rwa [List.take_length]
+  · have hlen := fits_length _ segLens hf
+    simp only [List.length_cons, List.length_append, List.length_nil, Nat.add_right_cancel_iff] at hlen
+    have : (verts ++ [e.xy])[verts.length]? = some e.xy := by simp
+    cases hsl : segLens.length with
+    | zero => omega
+    | succ n =>
+      have hn : n = verts.length := by omega
+      simp [hn]
+
+/-- non-vacuity: L-shaped pipe with a repeated vertex (a zero-length segment) -/
+example : fits [(0, 0), (6, 0), (6, 0), (6, 8)] [6, 0, 8] := by simp [fits]
+example : pointAt (lsum [6, 0, 8]) [(0, 0), (6, 0), (6, 0), (6, 8)] [6, 0, 8] = some (6, 8) := by decide +kernel
+example : pointAt (lsum ([6, 0, 8].take 1)) [(0, 0), (6, 0), (6, 0), (6, 8)] [6, 0, 8] = some (6, 0) := by decide +kernel
 
 /-- non-vacuity: an L-shaped pipe (0,0) → (6,0) → (6,8) cut at 5/7 of its length 14 -/
 example : (geometry ⟨"A", .junction, 0, (0, 0)⟩ ⟨"B", .junction, 0, (6, 8)⟩ [(6, 0)] [6, 8] (5 / 7) none).1 = some (6, 4) := by
